@@ -290,6 +290,19 @@ Proof. reflexivity. Qed.
 
 Lemma kw_for_list_nil (i : nat) : kw_for dK (KwList []) i = dK.
 Proof. unfold kw_for. cbn [kw_list]. destruct i; reflexivity. Qed.
+(** the three forms of the option argument in one statement: not given -> the empty option set
+    for every slice; a dict or a one-element list -> shared; a list of >= 2 -> entry i *)
+Theorem kw_for_cases (spec : @kwspec K) (i : nat) :
+  match spec with
+  | KwNone => kw_for dK spec i = dK
+  | KwOne k => kw_for dK spec i = k
+  | KwList [k] => kw_for dK spec i = k
+  | KwList l => kw_for dK spec i = nth i l dK
+  end.
+Proof.
+  destruct spec as [|k|l]; try reflexivity.
+  destruct l as [|k1 [|k2 l2]]; reflexivity.
+Qed.
 End KwProofs.
 
 (* ------------------------------------------------------------------------------------------ *)
@@ -532,6 +545,55 @@ Proof.
   rewrite map_length. apply seq_length.
 Qed.
 
+(** G6: the nested list has the array's first two dimensions (outer and inner lengths) *)
+Theorem group3d_axis0_row_length (sigma : list nat) (spec : kwspec) (sigs : list (list Sg))
+  (n1 i : nat) :
+  Permutation sigma (seq 0 (length sigs)) ->
+  (forall row, In row sigs -> length row = n1) ->
+  (forall k sl, length (epochs k sl) = length sl) ->
+  i < length sigs ->
+  length (nth i (group3d_axis0 epochs dK sigma spec sigs) []) = n1.
+Proof.
+  intros Hperm Hrect Hep Hi.
+  rewrite (group3d_axis0_nth sigma spec sigs i Hperm Hi), Hep.
+  apply Hrect. apply nth_In. exact Hi.
+Qed.
+
+Theorem group3d_axis0_shape (sigma : list nat) (spec : kwspec) (sigs : list (list Sg)) (n1 : nat) :
+  Permutation sigma (seq 0 (length sigs)) ->
+  (forall row, In row sigs -> length row = n1) ->
+  (forall k sl, length (epochs k sl) = length sl) ->
+  length (group3d_axis0 epochs dK sigma spec sigs) = length sigs /\
+  forall i, i < length sigs -> length (nth i (group3d_axis0 epochs dK sigma spec sigs) []) = n1.
+Proof.
+  intros Hperm Hrect Hep. split.
+  - apply group3d_axis0_length. exact Hperm.
+  - intros i Hi. apply group3d_axis0_row_length; assumption.
+Qed.
+
+Theorem group3d_axis1_shape (sigma : list nat) (spec : kwspec) (sigs : list (list Sg)) (n1 : nat) :
+  Permutation sigma (seq 0 n1) ->
+  length (group3d_axis1 epochs dK dS dT sigma spec sigs n1) = length sigs /\
+  forall i, i < length sigs ->
+    length (nth i (group3d_axis1 epochs dK dS dT sigma spec sigs n1) []) = n1.
+Proof.
+  intros Hperm. split.
+  - apply group3d_axis1_length.
+  - intros i Hi. apply (group3d_axis1_row_length sigma spec sigs n1 _ Hperm).
+    apply nth_In. rewrite group3d_axis1_length. exact Hi.
+Qed.
+
+Theorem group3d_axis01_shape (sigma : list nat) (spec : kwspec) (sigs : list (list Sg)) (n1 : nat) :
+  length (group3d_axis01 cf dK dS dT sigma spec sigs n1) = length sigs /\
+  forall i, i < length sigs ->
+    length (nth i (group3d_axis01 cf dK dS dT sigma spec sigs n1) []) = n1.
+Proof.
+  split.
+  - apply group3d_axis01_length.
+  - intros i Hi. apply (group3d_axis01_row_length sigma spec sigs n1).
+    apply nth_In. rewrite group3d_axis01_length. exact Hi.
+Qed.
+
 (** G7: BycycleGroup.models pairs result [i] (or [i][j]) with signal [i] (or [i][j]) *)
 Theorem models2d_spec (dfs : list T) (sigs : list Sg) (i : nat) :
   i < length sigs ->
@@ -588,35 +650,50 @@ Qed.
 (** * G8: non-vacuity on the correspondence instance (2x3 array, non-trivial completion order) *)
 
 Example run_group2d_example :
-  run_group (G2 [2; 0; 1] (Some [5; 6; 7]) 3) = [[id_cf 5 0; id_cf 6 1; id_cf 7 2]].
+  run_group (G2 [2; 0; 1] (GList [5; 6; 7]) 3) = [[id_cf 5 0; id_cf 6 1; id_cf 7 2]].
 Proof. vm_compute. reflexivity. Qed.
 
 Example run_group3d_axis0_example :
-  run_group (G3 0 [1; 0] (Some [5; 6]) 2 3) = [id_epochs 5 [0; 1; 2]; id_epochs 6 [3; 4; 5]].
+  run_group (G3 0 [1; 0] (GList [5; 6]) 2 3) = [id_epochs 5 [0; 1; 2]; id_epochs 6 [3; 4; 5]].
 Proof. vm_compute. reflexivity. Qed.
 
 Example run_group3d_axis1_example :
-  run_group (G3 1 [2; 0; 1] (Some [5; 6; 7]) 2 3) =
+  run_group (G3 1 [2; 0; 1] (GList [5; 6; 7]) 2 3) =
   [[(5, slice_id [0; 3], 0); (6, slice_id [1; 4], 0); (7, slice_id [2; 5], 0)];
    [(5, slice_id [0; 3], 1); (6, slice_id [1; 4], 1); (7, slice_id [2; 5], 1)]].
 Proof. vm_compute. reflexivity. Qed.
 
 Example run_group3d_axis01_example :
-  run_group (G3 2 [5; 3; 1; 0; 4; 2] (Some [10; 11; 12; 13; 14; 15]) 2 3) =
+  run_group (G3 2 [5; 3; 1; 0; 4; 2] (GList [10; 11; 12; 13; 14; 15]) 2 3) =
   [[id_cf 10 0; id_cf 11 1; id_cf 12 2]; [id_cf 13 3; id_cf 14 4; id_cf 15 5]].
 Proof. vm_compute. reflexivity. Qed.
 
 Example run_group3d_axis01_shared_example :
-  run_group (G3 2 [5; 3; 1; 0; 4; 2] None 2 3) =
+  run_group (G3 2 [5; 3; 1; 0; 4; 2] GShared 2 3) =
   [[id_cf 999 0; id_cf 999 1; id_cf 999 2]; [id_cf 999 3; id_cf 999 4; id_cf 999 5]].
+Proof. vm_compute. reflexivity. Qed.
+
+(** compute_features_kwargs not given: every row is analysed with the empty option set (id 998) *)
+Example run_group2d_none_example :
+  run_group (G2 [1; 2; 0] GNone 3) = [[id_cf 998 0; id_cf 998 1; id_cf 998 2]].
+Proof. vm_compute. reflexivity. Qed.
+
+Example run_group3d_axis1_none_example :
+  run_group (G3 1 [1; 0] GNone 2 2) =
+  [[(998, slice_id [0; 2], 0); (998, slice_id [1; 3], 0)];
+   [(998, slice_id [0; 2], 1); (998, slice_id [1; 3], 1)]].
+Proof. vm_compute. reflexivity. Qed.
+
+(** a one-element list on a one-row array is the shared case *)
+Example run_group2d_singleton_example : run_group (G2 [0] (GList [4]) 1) = [[id_cf 4 0]].
 Proof. vm_compute. reflexivity. Qed.
 
 (** the completion order does not matter: same results as with the identity order *)
 Example run_group_sigma_independent :
-  run_group (G2 [2; 0; 1] (Some [5; 6; 7]) 3) = run_group (G2 [0; 1; 2] (Some [5; 6; 7]) 3) /\
-  run_group (G3 0 [1; 0] (Some [5; 6]) 2 3) = run_group (G3 0 [0; 1] (Some [5; 6]) 2 3) /\
-  run_group (G3 1 [2; 0; 1] (Some [5; 6; 7]) 2 3) = run_group (G3 1 [0; 1; 2] (Some [5; 6; 7]) 2 3) /\
-  run_group (G3 2 [5; 3; 1; 0; 4; 2] None 2 3) = run_group (G3 2 [0; 1; 2; 3; 4; 5] None 2 3).
+  run_group (G2 [2; 0; 1] (GList [5; 6; 7]) 3) = run_group (G2 [0; 1; 2] (GList [5; 6; 7]) 3) /\
+  run_group (G3 0 [1; 0] (GList [5; 6]) 2 3) = run_group (G3 0 [0; 1] (GList [5; 6]) 2 3) /\
+  run_group (G3 1 [2; 0; 1] (GList [5; 6; 7]) 2 3) = run_group (G3 1 [0; 1; 2] (GList [5; 6; 7]) 2 3) /\
+  run_group (G3 2 [5; 3; 1; 0; 4; 2] GShared 2 3) = run_group (G3 2 [0; 1; 2; 3; 4; 5] GShared 2 3).
 Proof. vm_compute. repeat split. Qed.
 
 (** the permutation hypothesis of G1 is needed: a task that never completes blocks the output *)
